@@ -109,6 +109,8 @@ def conc_stage(tier):
 def replay(path):
     with open(path) as f:
         rp = json.load(f)
+    if rp.get("spec") == "CacheLatTrace.tla":
+        return p_simple.replay_events(PID, path, "CacheLatTrace.tla", boundary=("latcfg",))
     if rp.get("family") == "latency":
         return p_simple.replay_events(PID, path, "LatencyTrace.tla", boundary=("cfg",))
     return fam.replay_family(PID, path)
